@@ -48,7 +48,7 @@ func nums(l []int) string {
 
 func runC01(res *Result, d *Driver, tier string, seed uint64) {
 	res.Rule = "part A: real libseccomp.Builder.Build() on generated policies (disjoint allow/trace subsets of the amd64 table: sizes 0..|table|, biased to 250-300 names per group so that long jumps occur, all single-name and everything-but-one policies in thorough; every default action 0..6 and values with high bits) -> the []SockFilter handed to the kernel is validated by the verified validator (Model.SeccompValidate.validate, theorem C01_validator_sound) against the policy oracle; " +
-		"part B: the cBPF machine of the model vs golang.org/x/net/bpf's VM on the real programs and random seccomp_data; part C: GetConf/cleanTrace for every program type (allow/trace disjoint, trace precedence). non-trivial = non-empty policy; distinct = distinct (allow,trace,default)."
+		"part B: the cBPF machine of the model vs golang.org/x/net/bpf's VM on the real programs and random seccomp_data; part C: cleanTrace on random overlapping lists (trace-listed names traced, the rest allowed, no duplicates) and GetConf for every program type (allow/trace disjoint, execve stays traced); part D: filters built earlier are re-validated after later Builds (no shared storage). non-trivial = non-empty policy; distinct = distinct (allow,trace,default)."
 	rng := NewRng(seed, "C01", 1)
 	info, err := arch.GetInfo("")
 	if err != nil {
@@ -95,7 +95,8 @@ func runC01(res *Result, d *Driver, tier string, seed uint64) {
 		nA = 6000
 	}
 	defaults := []libseccomp.Action{0, 1, 2, 3, 4, 5, 6, 0x10003, 0x7fff0001, 0xffff0000, 0x20002}
-	var lastFilter seccomp.Filter
+	var lastFilter, prevFilter, prevSnap seccomp.Filter
+	var prevKey string
 	for i := 0; i < nA; i++ {
 		perm := append([]string{}, names...)
 		for j := len(perm) - 1; j > 0; j-- {
@@ -121,8 +122,22 @@ func runC01(res *Result, d *Driver, tier string, seed uint64) {
 		}
 		p := pol{allow: perm[:na], trace: perm[na : na+nt], def: defaults[rng.Intn(len(defaults))]}
 		f, _ := validateOne(p, fmt.Sprintf("policy-%s", map[bool]string{true: "long", false: "short"}[na > 255 || nt > 255 || na+nt > 240]))
+		// part D: the filter validated for the previous policy is still the same program after this Build
+		if prevFilter != nil {
+			same := len(prevFilter) == len(prevSnap)
+			for k := 0; same && k < len(prevSnap); k++ {
+				same = prevFilter[k] == prevSnap[k]
+			}
+			res.Case(fmt.Sprintf("rebuild-%d", i), true, "earlier-filter-after-later-build")
+			if !same {
+				res.Mismatch(Mismatch{Kind: "oracle", What: "a filter built earlier no longer implements its policy once a later policy has been built (C01: the program handed to the kernel)", Input: fmt.Sprintf("history: Build(%s) then Build(policy %d); the first filter compared with its validated copy", prevKey[:min(len(prevKey), 200)], i),
+					Impl: fmt.Sprintf("first filter now: %s", progString(prevFilter)[:min(len(progString(prevFilter)), 400)]), Model: fmt.Sprintf("validated: %s", progString(prevSnap)[:min(len(progString(prevSnap)), 400)]), Oracle: "violates"})
+			}
+		}
 		if f != nil {
 			lastFilter = f
+			prevFilter, prevSnap = f, append(seccomp.Filter{}, f...)
+			prevKey = fmt.Sprintf("allow=%d names trace=%d names default=%d", na, nt, p.def)
 		}
 		if i == 0 {
 			res.Sample(fmt.Sprintf("Builder{Allow:%d names, Trace:%d names, Default:%d} -> %d instructions -> valid", na, nt, p.def, len(f)))
@@ -195,6 +210,49 @@ func runC01(res *Result, d *Driver, tier string, seed uint64) {
 		}
 	}
 
+	// ---- part C0: cleanTrace on overlapping lists: every trace-listed name is traced, the rest of allow is allowed ----
+	nCT := 200
+	if tier == "thorough" {
+		nCT = 5000
+	}
+	for i := 0; i < nCT; i++ {
+		var al, tr []string
+		for k := rng.Intn(12); k > 0; k-- {
+			al = append(al, names[rng.Intn(20)])
+		}
+		for k := rng.Intn(12); k > 0; k-- {
+			tr = append(tr, names[rng.Intn(20)])
+		}
+		ao, to := config.VerifCleanTrace(append([]string{}, al...), append([]string{}, tr...))
+		res.Case(fmt.Sprintf("cleantrace %v %v", al, tr), len(al)+len(tr) > 0, "cleantrace")
+		inT := map[string]bool{}
+		for _, t := range tr {
+			inT[t] = true
+		}
+		wantA := map[string]bool{}
+		for _, a := range al {
+			if !inT[a] {
+				wantA[a] = true
+			}
+		}
+		gotA, gotT := map[string]bool{}, map[string]bool{}
+		for _, a := range ao {
+			gotA[a] = true
+		}
+		for _, t := range to {
+			gotT[t] = true
+		}
+		okc := len(gotA) == len(wantA) && len(gotT) == len(inT) && len(ao) == len(gotA) && len(to) == len(gotT)
+		for a := range wantA {
+			okc = okc && gotA[a]
+		}
+		for t := range inT {
+			okc = okc && gotT[t]
+		}
+		if !okc {
+			res.Mismatch(Mismatch{Kind: "oracle", What: "cleanTrace: TRACE exactly for the trace-listed names (trace wins over allow), ALLOW for the rest, no duplicates", Input: fmt.Sprintf("allow=%v trace=%v", al, tr), Impl: fmt.Sprintf("allow=%v trace=%v", ao, to), Oracle: "violates"})
+		}
+	}
 	// ---- part C: cleanTrace / GetConf ----
 	for _, pt := range []string{"default", "python2.7", "python3", "compiler", "unknown-type"} {
 		for _, ap := range []bool{false, true} {
@@ -206,6 +264,9 @@ func runC01(res *Result, d *Driver, tier string, seed uint64) {
 					res.Mismatch(Mismatch{Kind: "oracle", What: "cleanTrace: duplicate in trace", Input: pt, Impl: t, Oracle: "violates"})
 				}
 				tset[t] = true
+			}
+			if !tset["execve"] {
+				res.Mismatch(Mismatch{Kind: "oracle", What: "GetConf: execve is trace-listed by the defaults and must stay traced for every profile (trace takes precedence over an allow entry)", Input: fmt.Sprintf("%s allowProc=%v", pt, ap), Impl: fmt.Sprintf("trace=%v", trace), Oracle: "violates"})
 			}
 			aset := map[string]bool{}
 			for _, a := range allow {
